@@ -601,20 +601,18 @@ impl<K: EnrKey> Enr<K> {
             IpAddr::V4(addr) => {
                 let prev_value = self.insert(IP_ENR_KEY, &addr.octets().as_ref(), key)?;
                 if let Some(bytes) = prev_value {
-                    if bytes.len() == 4 {
-                        let mut v = [0_u8; 4];
-                        v.copy_from_slice(&bytes);
-                        return Ok(Some(IpAddr::V4(Ipv4Addr::from(v))));
+                    // the previous value is RLP encoded
+                    if let Ok(prev) = Ipv4Addr::decode(&mut bytes.as_ref()) {
+                        return Ok(Some(IpAddr::V4(prev)));
                     }
                 }
             }
             IpAddr::V6(addr) => {
                 let prev_value = self.insert(IP6_ENR_KEY, &addr.octets().as_ref(), key)?;
                 if let Some(bytes) = prev_value {
-                    if bytes.len() == 16 {
-                        let mut v = [0_u8; 16];
-                        v.copy_from_slice(&bytes);
-                        return Ok(Some(IpAddr::V6(Ipv6Addr::from(v))));
+                    // the previous value is RLP encoded
+                    if let Ok(prev) = Ipv6Addr::decode(&mut bytes.as_ref()) {
+                        return Ok(Some(IpAddr::V6(prev)));
                     }
                 }
             }
